@@ -727,7 +727,8 @@ Record ctl := mkCtl { ct_events : list (string * Z); ct_writes : list string; ct
                       ct_verr_reported : bool;   (* an Event about it carried the text of the validation error *)
                       ct_probe : Z;              (* the real informer handler on this event: 0 not probed, 1 passed on to the queue, 2 dropped *)
                       ct_files : list string;    (* per-resource configuration files that exist after the sync *)
-                      ct_pt : list (string * string)  (* tls-passthrough-hosts.conf after the sync: host -> unix socket *) }.
+                      ct_pt : list (string * string); (* tls-passthrough-hosts.conf after the sync: host -> unix socket *)
+                      ct_status : list (string * Z)   (* status.reason written by the sync (VS, VSR, TS), coded like the Events *) }.
 
 (* C10 at the controller level: one file per served resource, under the name the Configurator gives it *)
 Definition file_of (r : resource) : string :=
@@ -797,6 +798,26 @@ Fixpoint ctl_run (cf : cfg) (o : objs) (cl : smap event) (last : smap report) (e
   | _, _, _ => acc
   end.
 
+(* the status channel: the status subresource of VirtualServers, VirtualServerRoutes and TransportServers is the
+   most recent report the object itself carries.  The written statuses are accumulated per object the way the
+   API server keeps them (the harness plays the watch: the informer store gets a new object with the written
+   status) and must be truthful after every event, like the Events. *)
+Fixpoint status_run (cf : cfg) (o : objs) (cl : smap event) (lasts : smap report) (es : list event) (cs : list ctl) (i : Z) : Z * Z :=
+  match es, cs with
+  | e :: er, ct :: crest =>
+      let o' := apply_event o e in
+      let cl' := cluster_apply cl e in
+      let lasts' := fold_left (fun m kr => insert (fst kr) (report_of_code (snd kr)) m) (ct_status ct) (forget cl e lasts) in
+      match filter_map (fun kv => match snd kv with
+                                  | EVS _ _ _ | EVSR _ _ _ | ETS _ _ _ =>
+                                      let d := truthful cf o' (ct_obs ct) lasts' (fst kv) (snd kv) in if d =? 0 then None else Some d
+                                  | _ => None end) cl' with
+      | d :: _ => (i, d)
+      | [] => status_run cf o' cl' lasts' er crest (i + 1)
+      end
+  | _, _ => (0, 0)
+  end.
+
 (* acquiring leadership at the end of the history: status writes that name an object of a foreign class
    (the four arbitrated kinds by the cluster; Policies by the class they carry) *)
 Definition leader_foreign (es : list event) (writes : list string) (pol_writes : list (string * string)) : Z :=
@@ -807,4 +828,5 @@ Definition leader_foreign (es : list event) (writes : list string) (pol_writes :
 Definition ctl_case (id : Z) (c : cfg) (es : list event) (os : list obs) (final : obs)
            (alts : list (list event * obs)) (cs : list ctl) (lw : list string) (pw : list (string * string)) : list Z :=
   let '(dx, ds, dc, df, (dd, dk)) := ctl_run c objs0 [] [] es os cs 1 (0, 0, 0, 0, (0, 0)) in
-  [id; dx; ds; dc; df; Z.of_nat (List.length es); dd; dk; leader_foreign es lw pw; files_run cs 1; pt_run cs 1].
+  [id; dx; ds; dc; df; Z.of_nat (List.length es); dd; dk; leader_foreign es lw pw; files_run cs 1; pt_run cs 1;
+   fst (status_run c objs0 [] [] es cs 1); snd (status_run c objs0 [] [] es cs 1)].
